@@ -129,6 +129,13 @@ func (r *messageSetReader) readMessage(min int64, key readBytesFunc, val readByt
 	if err = r.readHeader(); err != nil {
 		return
 	}
+	// Record batches may have been left without any record by log compaction,
+	// skip them to get to the header of the next batch that has some.
+	for r.header.magic == 2 && r.count == 0 {
+		if err = r.readHeader(); err != nil {
+			return
+		}
+	}
 	switch r.header.magic {
 	case 0, 1:
 		offset, timestamp, headers, err = r.readMessageV1(min, key, val)
